@@ -10,8 +10,10 @@
 
   Conventions: a byte buffer is a `List Nat`; "every element is `< 256`" is the separate
   well-formedness predicate `BytesOk` (preserved by `store`, see EG/Lemmas/Raw.lean), not a subtype.
-  Pixel indices are `Nat` (`usize` in Rust; `index * 2/3/4` is mathematical here — the `usize`
-  overflow for astronomically large indices belongs to property C08). A raw value is a `Nat`;
+  Pixel indices are `Nat` (`usize` in Rust). The real multi-byte `load`/`store` compute the byte
+  offset as `index.checked_mul(n)` and reject the index when that overflows; here `index * n` is the
+  mathematical product and `sliceFrom` rejects it because it exceeds the buffer length (a buffer is
+  shorter than `usize::MAX`), which is the same answer for every `usize` index. A raw value is a `Nat`;
   `RawUx::new` masks it (`rawNew`), `store` expects a value that went through `new` (`v < 2^bits`).
   Import-free.
 -/
